@@ -34,6 +34,7 @@ STATS = Stats()
 QUERY_TIMEOUT_MS = 60000
 XSAMPLES = []        # (name, smt-lib2 text, z3 verdict) kept for the cross-solver diff
 XLIMIT = 0
+LOOP_BOUND = [64]    # unwinding bound of list loops in the front-ends (raised for the boundary-long shapes; exceeding it is INCONCLUSIVE(unwind))
 _XSEEN = [0]
 
 
@@ -212,6 +213,42 @@ class PathCtl:
         self.solver.add(c)
         self.pc.append(c)
         return idx
+
+    allow_concretise = False     # set by the caller (C02-style cells): see concretise
+    concretised = 0
+
+    def concretise(self, term):
+        """The code under analysis needs a concrete integer (a length to read) where it holds a symbolic one - on a canonical
+        encoding that only happens when a decoder has lost its position.  Pick a value consistent with the path and pin it:
+        every counterexample found below is genuine, but the path no longer covers all values, so the caller must not count
+        the cell as discharged (PathCtl.concretised > 0).  The value is recorded in the decision trace so that the forks by
+        re-execution see the same one."""
+        if not self.allow_concretise:
+            raise Unsupported('symbolic integer where a concrete one is needed')
+        k = len(self.trace)
+        if k < len(self.prefix):
+            val = self.prefix[k]
+        else:
+            if self.solver.check() != z3.sat:
+                raise Unsupported('symbolic integer where a concrete one is needed (no model)')
+            m = self.solver.model()
+            # prefer a small value: a huge length only produces a short-read error
+            val = None
+            for cand in (0, 1, 2):
+                self.solver.push(); self.solver.add(term == cand)
+                ok = self.solver.check() == z3.sat
+                self.solver.pop()
+                if ok:
+                    val = cand
+                    break
+            if val is None:
+                val = m.eval(term, model_completion=True).as_long()
+        self.trace.append(([val], val))
+        c = term == z3.BitVecVal(val, term.size())
+        self.solver.add(c)
+        self.pc.append(c)
+        self.concretised += 1
+        return val
 
     def branch(self, cond):
         """boolean branch; concrete conditions are returned directly"""
